@@ -149,3 +149,14 @@ package hash
 //@   hyp forall(x.(int), T[x] == (S[x] && !X[x]))
 //@   hyp succOf(S, h, r) && succOf(T, h, r2) && !X[r]
 //@   goal r2 == r
+
+// constructors: an empty ring with at least the minimum replica count
+//@ spec ringReady(h *ConsistentHash) bool = h != nil && h.ring != nil && h.nodes != nil && h.replicas >= 100
+//@ func NewCustomConsistentHash
+//@   property C15
+//@   ensures fresh(result) && result.ring != nil && result.nodes != nil && result.hashFunc != nil && result.replicas >= 100 && result.replicas >= replicas && len(result.keys) == 0
+//@   allocates
+//@ func NewConsistentHash
+//@   property C15
+//@   ensures fresh(result) && result.ring != nil && result.nodes != nil && result.replicas >= 100
+//@   allocates
